@@ -27,6 +27,7 @@ func runC02(p *eng.Prog, r *eng.Report, tier string) {
 	// C02.14 "the tee changes none of this": the connection adapters report
 	// every fault and perform one wrapped operation per call (= C04.13)
 	c04AdaptersReportEveryFault(c, "C02.14")
+	jidCore(c, "C02.15")
 	jidEqualRule(c, "C02.11")
 	jidAppendsFresh(c, "C02.12")
 	c02TeeWrapsWhatItWasGiven(c, "C02.13")
